@@ -195,6 +195,14 @@ def run(case):
             r2 = _call(iterutils.backoff, start, stop, count=count, factor=factor, jitter=jitter)
             if r2 != ('ok', seq):
                 return out.fail('c15.backoff-differs-from-iter', '%s: backoff() -> %r, list(backoff_iter()) -> %r' % (desc, r2, seq))
+            # the returned list belongs to the caller: changing it must not change what an identical later call returns
+            r2[1].reverse()
+            r2[1].append(-1.0)
+            iterutils.random = types.SimpleNamespace(random=FakeRandom(case['draws']).random)
+            r3 = _call(iterutils.backoff, start, stop, count=count, factor=factor, jitter=jitter)
+            if r3 != ('ok', seq):
+                return out.fail('c15.backoff-result-aliased', '%s: a second identical backoff() call, after the caller changed the first result, -> %r, expected %r' % (
+                    desc, r3, seq))
     finally:
         iterutils.random = real_random
     if len(seq) >= 5000:
